@@ -280,6 +280,7 @@ type prop struct {
 	matchers   [nOpaque]caddytls.ConnectionMatcher
 	e2eCert    tls.Certificate
 	res        resEnv
+	full       fullEnv
 	caB64      string
 	caDER      []byte
 	foreignDER []byte
@@ -469,6 +470,9 @@ func (p *prop) setup() error {
 }
 
 func (p *prop) Finish(*core.Session) {
+	if p.full.app != nil {
+		p.full.app.Stop()
+	}
 	if p.dir != "" {
 		os.RemoveAll(p.dir)
 	}
@@ -852,6 +856,8 @@ func (p *prop) Run(line string) core.Outcome {
 		o = p.runPol(f)
 	case len(f) == 5 && f[0] == "enf":
 		o = p.runEnf(f)
+	case len(f) == 5 && f[0] == "full":
+		o = p.runFull(f)
 	case len(f) == 3 && f[0] == "res":
 		o = p.runRes(f)
 	case len(f) == 2 && f[0] == "quic":
